@@ -206,6 +206,13 @@ class Code310(Code38):
         table = list(self.co_linetable)
         code_len = len(self.co_code)
 
+        # Code before the first entry belongs to no line: ranges whose line
+        # delta is -128 ("no line").
+        lead = table[0][0] if table else 0
+        while lead > 0:
+            co_linetable += bytearray([min(lead, 254), 0x80])
+            lead -= min(lead, 254)
+
         for i, (offset, line_number) in enumerate(table):
             if i + 1 < len(table):
                 end_offset = table[i + 1][0]
